@@ -6,6 +6,7 @@ import (
 	"fmt"
 	"os"
 	"path/filepath"
+	"runtime/debug"
 	"strings"
 	"testing"
 
@@ -102,7 +103,7 @@ func (c Check[C]) register() {
 		if err := json.Unmarshal(raw, &cs); err != nil {
 			return &Violation{Property: c.Property, Signature: "replay/bad-case-file", Message: err.Error()}
 		}
-		return c.Run(cs)
+		return safeRun(c, cs)
 	}
 }
 
@@ -147,6 +148,21 @@ func failCase(t *rapid.T, v *Violation) {
 	t.Fatalf("%s", v.Signature)
 }
 
+// safeRun executes Run and converts an uncaught panic (e.g. in a deferred
+// Close of the code under test) into a violation with a stable signature.
+func safeRun[C any](c Check[C], cs C) (v *Violation) {
+	defer func() {
+		if r := recover(); r != nil {
+			st := debug.Stack()
+			if len(st) > 2500 {
+				st = st[:2500]
+			}
+			v = &Violation{Property: c.Property, Signature: "panic/uncaught", Message: fmt.Sprintf("the code under test panicked: %v\n%s", r, st)}
+		}
+	}()
+	return c.Run(cs)
+}
+
 // Rapid runs the check under rapid and writes the collector.
 func (c Check[C]) Rapid(t *testing.T) {
 	col := stats.New(c.Property, c.Stage)
@@ -170,7 +186,7 @@ func (c Check[C]) Rapid(t *testing.T) {
 			nt, classes = c.Classify(cs)
 		}
 		col.Case(cs, nt, classes, func() any { return sampleOf(cs) })
-		v := c.Run(cs)
+		v := safeRun(c, cs)
 		if v == nil {
 			if c.After != nil {
 				for _, cl := range c.After(cs) {
